@@ -171,9 +171,9 @@ def run(rep, prog, tier):
     # ---- marginalize ------------------------------------------------------------------------------------------------
     mg = prog.func(SM, 'Spectrum.marginalize')
     loops = [n for n in own_nodes(mg) if isinstance(n, ast.For)]
-    sums = [lp for lp in loops if any(isinstance(x, ast.Assign) and '.sum(axis=' in ast.unparse(x.value) for x in lp.body)]
+    sums = [lp for lp in loops if any(isinstance(x, ast.Assign) and 'numpy.sum(' in ast.unparse(x.value) and 'axis=' in ast.unparse(x.value) for x in lp.body)]
     dels = [lp for lp in loops if any(isinstance(x, ast.Delete) for x in lp.body)]
-    oks = len(sums) == 1 and desc_sorted(sums[0].iter, 'over') and any(ast.unparse(x) == 'output = output.sum(axis=%s)' % sums[0].target.id for x in sums[0].body)
+    oks = len(sums) == 1 and desc_sorted(sums[0].iter, 'over') and any(ast.unparse(x) == 'output = numpy.sum(output, axis=%s)' % sums[0].target.id for x in sums[0].body)
     rep.ob('R-IDX', 'marginalize data', oks, 'axes summed over %s' % (ast.unparse(sums[0].iter) if sums else '?'), rel, sums[0].lineno if sums else mg.lineno,
            what='axes are summed in descending order (a reduction does not renumber the axes still to be summed)')
     okd = len(dels) == 1 and desc_sorted(dels[0].iter, 'over') and any(ast.unparse(x) == 'del pop_ids[%s]' % dels[0].target.id for x in dels[0].body)
